@@ -4,8 +4,11 @@
   lammps.write_for_run                              (`infretis_*` variable substitution)
 
 Tie against Infretis.Template.modifyInput / readSettings / writeForRun (ops mdpmodify, mdpread, wfr = the code
-after the repairs eaf64e1 / f746fff; mdpmodifyA, wfrA = the code before them, only used to recognise a regression) and direct evaluation of the property predicates
-(only requested entries change; requested entries get the value; idempotence) on the real code.
+after the repairs eaf64e1 / f746fff / 48a6c1e; mdpmodifyA, wfrA (before f746fff), wfrS (substring str.replace, before
+48a6c1e) = the code before them, only used to NAME a regression by its old signature) and direct evaluation of the
+property predicates (only requested entries change; requested entries get the value; idempotence) on the real code.
+Text goes to the driver as Latin-1 hex, or as `U` + six hex digits per code point when it has characters above U+00FF
+(the model's white space is Python's str.isspace, all 29 code points).
 """
 from __future__ import annotations
 
@@ -16,7 +19,7 @@ import shutil
 import tempfile
 from pathlib import Path
 
-from common import err_kind, hexs
+from common import err_kind
 
 PART = "tmpl"
 SIG_MDP_NL = "C19:mdp:append-after-missing-final-newline"
@@ -24,9 +27,10 @@ SIG_LMP_2L = "C19:lammps:variable-on-two-lines"
 SIG_LMP_WORD = "C19:lammps:unrequested-word-edited"
 SIG_LMP_WORD_RAISES = "C19:lammps:raises-though-every-variable-is-a-word"
 SIG_LMP_SAMELINE = "C19:lammps:substring-on-a-requested-line"
-# behaviour of the UNCHANGED /repo that the whole-word predicate rejects (reported, not yet a recorded finding):
-# a failure with one of these signatures becomes a ctx.note instead of a VIOLATION
-PENDING_FINDINGS = {SIG_LMP_SAMELINE}
+# behaviour of the UNCHANGED /repo that a predicate rejects and that is reported but not yet a recorded finding:
+# a failure with one of these signatures is written into the evidence file instead of being a VIOLATION.
+# (SIG_LMP_SAMELINE was pending until /repo 48a6c1e repaired it; it is a recorded, fixed finding now.)
+PENDING_FINDINGS = set()
 
 
 def _imports():
@@ -35,12 +39,26 @@ def _imports():
     return EngineBase, write_for_run
 
 
+def hexs(s):
+    """text token of the Template driver ops: Latin-1 hex (one byte = one character), `-` = empty,
+    `U` + 6 hex digits per code point when a character is above U+00FF"""
+    if not s:
+        return "-"
+    if all(ord(c) < 256 for c in s):
+        return s.encode("latin-1").hex()
+    return "U" + "".join("%06x" % ord(c) for c in s)
+
+
 def sett_tokens(d):
     return " ".join([str(len(d))] + [hexs(str(k)) + " " + hexs(str(v)) for k, v in d.items()])
 
 
 def unhex(t):
-    return "" if t == "-" else bytes.fromhex(t).decode("latin-1")
+    if t == "-":
+        return ""
+    if t.startswith("U"):
+        return "".join(chr(int(t[i:i + 6], 16)) for i in range(1, len(t), 6))
+    return bytes.fromhex(t).decode("latin-1")
 
 
 class Box:
@@ -247,9 +265,10 @@ def lmp_tokens(line):
 
 
 def lmp_clean(tmpl, settings):
-    """the domain on which the property is stated for the LAMMPS editor: every variable is a token
-    somewhere, is never a proper substring of a template token or of another variable, and no value
-    contains a variable name"""
+    """the domain on which the whole property (exact edit, no variable remains, second application) is stated for the
+    LAMMPS editor: every variable is one white-space free word and a word of the template, and no value has a variable
+    among its WORDS (Lean: lammps_edit_words + lammps_no_var_remains_partial, guard G1).  Variables inside longer
+    words of the template or of a value are inside the domain since /repo 48a6c1e."""
     toks = set(tmpl.split())
     keys = list(settings)
     for k in keys:
@@ -257,11 +276,9 @@ def lmp_clean(tmpl, settings):
             return False
         if k not in toks:
             return False
-        if any(k in t and k != t for t in toks):
-            return False
-        if any(k in k2 and k != k2 for k2 in keys):
-            return False
-        if any(k in str(v) for v in settings.values()):
+    for v in settings.values():
+        vw = str(v).split()
+        if any(k in vw for k in keys):
             return False
     return True
 
@@ -284,7 +301,8 @@ def lmp_predicates(box, write_for_run, tmpl, settings, first=None):
         return (SIG_LMP_2L if (st == "err:key" and two) else "C19:lammps:raises",
                 f"write_for_run raised {st} on a template containing every variable; file so far {out!r}")
     if out != want:
-        return ("C19:lammps:edit-not-exact", f"output {out!r}, expected {want!r}")
+        old = "".join(lmp_substring_line(l, settings) for l in lines_nl(tmpl))
+        return (SIG_LMP_SAMELINE if out == old else "C19:lammps:edit-not-exact", f"output {out!r}, expected {want!r}")
     # no variable remains; a second application copies every byte and ends in the ValueError branch
     if any(k in l.split() for l in lines_nl(out) for k in settings):
         return ("C19:lammps:variable-remains", f"a variable is still a token of {out!r}")
@@ -300,18 +318,27 @@ def lmp_word_keys(settings):
     return all(isinstance(k, str) and k and k.split() == [k] for k in settings)
 
 
-def lmp_entangled(line, settings):
-    """a requested variable that is a word of this line ALSO occurs on the same line inside a longer word, or inside
-    the value of a variable substituted earlier on this line: there `str.replace` of the unchanged code reaches
-    beyond the word (Lean: lammps_edit_words_same_line_counterexample)"""
+def lmp_guard_line(line, settings):
+    """the guard of Lean `lammps_edit_words` on one line: of two variables that are both words of the line, the LATER
+    one in dict order is no word of the EARLIER one's value (the substitutions of a line act one after the other on
+    the current line, so such a word would be replaced in turn; Lean: lammps_edit_words_guard_counterexample)"""
     toks = line.split()
     on = [k for k in settings if k in toks]
     for i, k in enumerate(on):
-        if any(k in t and k != t for t in toks):
-            return True
-        if any(k in str(settings[k2]) for k2 in on[:i]):
-            return True
-    return False
+        vw = str(settings[k]).split()
+        if any(k2 in vw for k2 in on[i + 1:]):
+            return False
+    return True
+
+
+def lmp_substring_line(line, settings):
+    """what the code BEFORE 48a6c1e made of a line (str.replace of every variable that is a word of the line): only
+    used to give a regression of that repair its recorded signature"""
+    toks = line.split()
+    for k in settings:
+        if k in toks:
+            line = line.replace(k, str(settings[k]))
+    return line
 
 
 def lmp_word_predicate(tmpl, settings, first):
@@ -319,7 +346,8 @@ def lmp_word_predicate(tmpl, settings, first):
     model: every white-space delimited word of the template is kept unless the word IS a requested variable, then it
     is the requested value; all white space (line structure) is kept; a call with every requested variable present
     as a whole word does not raise.  A word that merely CONTAINS a variable name stays untouched.
-    Returns (signature, message) or None.  Domain: lmp_word_keys(settings)."""
+    Returns (signature, message) or None.  Domain: lmp_word_keys(settings); lines on which lmp_guard_line fails
+    (a value has a later variable of the same line among its words) are compared with the model only."""
     st, out = first
     tl = lines_nl(tmpl)
     toks = set(tmpl.split())
@@ -333,23 +361,26 @@ def lmp_word_predicate(tmpl, settings, first):
     want = [lmp_expected(l, settings) for l in tl]
     if out == "".join(want):
         return None
+    guard = [lmp_guard_line(l, settings) for l in tl]
+    if any("\n" in str(v) for v in settings.values()):
+        # a value with a newline changes the line structure of the output: only the whole text can be compared
+        if all(guard):
+            return (SIG_LMP_WORD, f"output {out!r}; with only the words that ARE requested variables set it is "
+                    f"{''.join(want)!r}")
+        return None
     ol = lines_nl(out)
     if len(ol) != len(want):
-        # values without newline cannot change the number of lines
-        if not any("\n" in str(v) for v in settings.values()):
-            return (SIG_LMP_WORD, f"line structure changed: {len(tl)} template lines, {len(ol)} output lines: {out!r}")
+        return (SIG_LMP_WORD, f"line structure changed: {len(tl)} template lines, {len(ol)} output lines: {out!r}")
+    bad = [i for i in range(len(want)) if ol[i] != want[i] and guard[i]]
+    if not bad:
         return None
-    bad = [i for i in range(len(want)) if ol[i] != want[i]]
-    if any("\n" in str(v) for v in settings.values()):
-        return None
-    hard = [i for i in bad if not lmp_entangled(tl[i], settings)]
-    if hard:
-        i = hard[0]
-        return (SIG_LMP_WORD, f"template line {i} {tl[i]!r} became {ol[i]!r}; with only the words that ARE requested "
-                f"variables {sorted(k for k in settings if k in tl[i].split())} set it is {want[i]!r}")
     i = bad[0]
-    return (SIG_LMP_SAMELINE, f"template line {i} {tl[i]!r} became {ol[i]!r}, word by word it is {want[i]!r}: the "
-            "variable is a word of the line and also part of a longer word / an earlier value on the same line")
+    if ol[i] == lmp_substring_line(tl[i], settings):
+        return (SIG_LMP_SAMELINE, f"template line {i} {tl[i]!r} became {ol[i]!r}, word by word it is {want[i]!r}: the "
+                "variable is a word of the line and was also replaced inside a longer word / an earlier value on the "
+                "same line (the substring replacement of before 48a6c1e)")
+    return (SIG_LMP_WORD, f"template line {i} {tl[i]!r} became {ol[i]!r}; with only the words that ARE requested "
+            f"variables {sorted(k for k in settings if k in tl[i].split())} set it is {want[i]!r}")
 
 
 LMP_LINES = [
@@ -362,10 +393,46 @@ LMP_LINES = [
     # a variable as a word AND inside a longer word / next to a variable it is a prefix of, on the same line
     "pair infretis_n infretis_name.data infretis_nsteps\n", "log my_infretis_seed.log # infretis_seed\n",
     "print infretis_name_eq\n", "label infretis_nsteps_eq my_infretis_seed\n",
+    # several kinds of white space next to each other, also non-ASCII ones (str.split and \S treat them alike)
+    "infretis_n\t\x0binfretis_name\x0c\x1c infretis_n\x1d\x1e\x1finfretis_seed\n",
+    "set\xa0infretis_seed\x85infretis_n\u2003infretis_name\u3000#\u2028infretis_nsteps\u2029\n",
+    # look-alikes that are NOT white space: the variable stays part of a longer word
+    "zw infretis_n\u200binfretis_seed infretis_name\x00 \x7finfretis_nsteps \ufeffinfretis_seed \u00e9infretis_n\n",
+    "infretis_seed infretis_seed\tinfretis_seed  infretis_seed",
+    # regular-expression metacharacters next to / around a variable (re.escape, literal replacement)
+    "a.b infretis_n* (infretis_n) infretis_n \\1 $infretis_n ^infretis_n\n",
 ]
 LMP_KEYS = ["infretis_subcycles", "infretis_timestep", "infretis_nsteps", "infretis_name", "infretis_temperature",
             "infretis_lammpsdata", "infretis_n", "infretis_seed"]
-LMP_VALS = [1, 0.5, 300.0, "/tmp/a b/conf.lammpstrj", "name", 1000, "", "infretis_n", "x infretis_name", 0, 0.0, False, "0", -0.0]
+LMP_VALS = [1, 0.5, 300.0, "/tmp/a b/conf.lammpstrj", "name", 1000, "", "infretis_n", "x infretis_name", 0, 0.0, False,
+            "0", -0.0,
+            # white space of several kinds inside / around a value
+            " lead", "trail\t", "a\x0b\x0cb", "u\xa0v\u2003w", "two\nlines",
+            # variable names as whole words of a value, and inside longer words of a value
+            "infretis_seed", "infretis_name infretis_n", "pre_infretis_n_post", "infretis_name.dat", "my_infretis_seed q",
+            # characters that are special in a regular-expression replacement template
+            "\\1", "\\g<0>", "a\\nb", "$1 &"]
+
+
+def lmp_ws_cases():
+    """every white-space character of str.isspace (except the line terminators '\n' and '\r') and some look-alikes that
+    are NOT white space, as the separator before / after / around a variable; exhaustive, independent of the seed"""
+    ws = [c for c in map(chr, list(range(0x3100))) if c.isspace() and c not in "\n\r"]
+    non = ["\x00", "\x08", "\x7f", "\x84", "\x86", "\u00ad", "\u180e", "\u200b", "\u200c", "\u2060", "\ufeff", "\u3001"]
+    out = []
+    for w in ws + non:
+        for t in (f"a{w}infretis_a{w}b\n", f"infretis_a{w}\n", f"{w}infretis_a", f"x{w}{w}infretis_a infretis_a{w}infretis_b\n",
+                  f"infretis_ab{w}infretis_a\n"):
+            out.append((t, {"infretis_a": 4}))
+            out.append((t, {"infretis_a": f"p{w}q", "infretis_b": "infretis_a"}))
+            out.append((t, {"infretis_b": f"infretis_a{w}r", "infretis_a": "9"}))
+    # variables with characters that are special in a regular expression (re.escape makes them literal)
+    for t, s in (("x.y xzy x.y\n", {"x.y": 1}), ("a|b a b a|b\n", {"a|b": 2}), ("(k) k (k)\n", {"(k)": 3}),
+                 ("k\\d k1 k\\d\n", {"k\\d": "v"}), ("v* vv v*\n", {"v*": 0}), ("[q] q [q]\n", {"[q]": "r s"}),
+                 ("^a a ^a $b b $b\n", {"^a": 1, "$b": 2}), ("${x} $x ${x}\n", {"${x}": "y"}), ("p+ pp p+ p\n", {"p+": 5, "p": 6})):
+        out.append((t, s))
+        out.append((t[:-1], s))
+    return out
 
 
 def lmp_cases(ctx):
@@ -374,7 +441,9 @@ def lmp_cases(ctx):
     alpha = ["variable a index infretis_a\n", "run infretis_b\n", "# c\n", "infretis_a infretis_b\n",
              "infretis_ab x\n", "\n"]
     setts = [{}, {"infretis_a": 0}, {"infretis_a": 1, "infretis_b": "two"}, {"infretis_b": 0.0, "infretis_a": "q r"},
-             {"infretis_ab": 3, "infretis_a": 4}]
+             {"infretis_ab": 3, "infretis_a": 4},
+             # a value that has a variable among its words: before / after that variable in dict order
+             {"infretis_a": "infretis_b", "infretis_b": "7"}, {"infretis_b": "7", "infretis_a": "x infretis_b"}]
     maxl = 3 if ctx.quick else 4
     for n in range(0, maxl + 1):
         for ls in itertools.product(alpha, repeat=n):
@@ -383,6 +452,7 @@ def lmp_cases(ctx):
                 cases.append((t, dict(s)))
             if t and n <= 2:
                 cases.append((t[:-1], dict(setts[2])))
+    cases += lmp_ws_cases()
     nrand = 1500 if ctx.quick else 30000
     for _ in range(nrand):
         n = rng.randint(0, 9)
@@ -390,6 +460,24 @@ def lmp_cases(ctx):
         if t and rng.random() < 0.2:
             t = t[:-1]
         ks = rng.sample(LMP_KEYS, rng.randint(0, 5))
+        s = {k: rng.choice(LMP_VALS) for k in ks}
+        cases.append((t, s))
+    # random lines built from words and separators: variables, longer words containing them, all kinds of white space
+    words = LMP_KEYS + ["infretis_name_eq", "my_infretis_seed", "infretis_n.x", "run", "#", "${a}", "infretis_", "é"]
+    seps = [" ", "  ", "\t", " \t", "\x0b", "\x0c", "\x1c", "\x1f ", "\xa0", "\x85", "\u2003", "\u3000", "\u2028 "]
+    for _ in range(600 if ctx.quick else 12000):
+        lines = []
+        for _l in range(rng.randint(1, 4)):
+            line = rng.choice(["", "", " ", "\t", "\xa0"])
+            for _w in range(rng.randint(0, 6)):
+                line += rng.choice(words) + rng.choice(seps)
+            if rng.random() < 0.3:
+                line = line.rstrip() if rng.random() < 0.5 else line + rng.choice(words)
+            lines.append(line + "\n")
+        t = "".join(lines)
+        if rng.random() < 0.2:
+            t = t[:-1]
+        ks = rng.sample(LMP_KEYS, rng.randint(1, 5))
         s = {k: rng.choice(LMP_VALS) for k in ks}
         cases.append((t, s))
     # the repo's own templates with the engine's key set
@@ -407,14 +495,19 @@ def lmp_cases(ctx):
 
 
 # ----------------------------------------------------------------------------- run
-def agree(ctx, case, code, now, asis, state):
-    """the code must agree with the model of the code as it is now (after the repairs); where it agrees with the
-    as-is model of before the repair instead, the repair has regressed (the predicates name the old signature)"""
+def agree(ctx, case, code, now, asis, state, older=None):
+    """the code must agree with the model of the code as it is now (after the repairs); where it agrees with a
+    model of the code before a repair instead (`asis`, `older`: name -> output), that repair has regressed (the
+    predicates name the old signature)"""
     if code == now:
         return
-    if code == asis:
+    olds = {"before the repair": asis}
+    olds.update(older or {})
+    hit = [n for n, o in olds.items() if code == o]
+    if hit:
         state["regressed"] += 1
-    ctx.disagree(case, code, now, note=f"model of the code before the repair: {asis}")
+    ctx.disagree(case, code, now, note="; ".join(f"model of the code {n}: {o}" for n, o in olds.items())
+                 + (f" — the code behaves as {hit[0]}" if hit else ""))
 
 
 def note_fail(fails, r, replay):
@@ -478,17 +571,30 @@ def _run(ctx, box, EngineBase, write_for_run):
 
     # ------------------------------------------------ LAMMPS
     lcases = lmp_cases(ctx)
+    import locale
+    utf8 = locale.getpreferredencoding(False).lower().replace("-", "") == "utf8"
+    if not utf8:
+        # write_for_run opens its files with the locale's encoding: non-ASCII templates would be decoded differently
+        lcases = [(t, s) for (t, s) in lcases if t.isascii() and all(str(v).isascii() for v in s.values())]
+        ctx.assumptions.append("preferred encoding is not UTF-8: non-ASCII LAMMPS templates were NOT compared in this run")
     lcode = [wfr_code(box, write_for_run, t, s) for (t, s) in lcases]
     st2 = {"regressed": 0}
     if have:
         outN = ctx.driver([f"wfr {hexs(t)} {sett_tokens(s)}" for (t, s) in lcases])
         outA = ctx.driver([f"wfrA {hexs(t)} {sett_tokens(s)}" for (t, s) in lcases])
+        outS = ctx.driver([f"wfrS {hexs(t)} {sett_tokens(s)}" for (t, s) in lcases])
+        outW = ctx.driver([f"wfrwords {hexs(t)} {sett_tokens(s)}" for (t, s) in lcases])
         for k, (t, s) in enumerate(lcases):
             a = outN[k].split()
             r = outA[k].split()
+            r2 = outS[k].split()
             c = (("ok" if lcode[k][0] == "ok" else lcode[k][0]), lcode[k][1])
-            agree(ctx, {"part": PART, "fn": "write_for_run", "template": t, "settings": {x: str(y) for x, y in s.items()}},
-                  c, (a[0], unhex(a[1])), (r[0], unhex(r[1])), st2)
+            case = {"part": PART, "fn": "write_for_run", "template": t, "settings": {x: str(y) for x, y in s.items()}}
+            agree(ctx, case, c, (a[0], unhex(a[1])), (r[0], unhex(r[1])), st2,
+                  older={"before 48a6c1e (substring replacement)": (r2[0], unhex(r2[1]))})
+            # the Lean SPEC `wordsText` (right-hand side of lammps_edit_words) against the independent Python statement
+            if lmp_word_keys(s) and unhex(outW[k]) != lmp_expected(t, s):
+                ctx.disagree(dict(case, fn="wordsText(spec)"), lmp_expected(t, s), unhex(outW[k]))
     for k, (t, s) in enumerate(lcases):
         toks = set(t.split())
         nontriv = any(x in toks for x in s)
@@ -520,17 +626,23 @@ def _run(ctx, box, EngineBase, write_for_run):
         ctx.fail(sig, f"{what} [{n} failing inputs this run; smallest shown]", replay)
     ctx.extra["tmpl_cases_behaving_as_before_the_repairs"] = {"mdp": st["regressed"], "lammps": st2["regressed"]}
     ctx.assumptions += [
-        "templates are ASCII without '\\r' (text-mode newline translation and non-ASCII white space are not modelled)",
+        "templates and values are without '\\r' (text-mode newline translation is not modelled); white space is str.isspace "
+        "(all 29 code points, compared also on non-ASCII templates); files are read/written as UTF-8 (checked at start: "
+        "the interpreter's preferred encoding is UTF-8, which write_for_run's open() uses)",
         "mdp delimiter is '=' (the only one the engines pass); settings values are compared through str()",
         "mdp predicates are stated for non-empty keys without '=', newline or outer blanks and values without newline; "
-        "LAMMPS predicates for templates where every variable is a token, no variable is a proper substring of a "
-        "template token / other variable and no value contains a variable (outside: model-vs-code only)",
+        "LAMMPS: the word-by-word predicate is stated for variables that are single words, on every line where no value "
+        "has a LATER variable of the same line among its words (Lean lammps_edit_words; other lines model-vs-code only); "
+        "the full property (no variable remains, second application) for templates where every variable is a word and "
+        "no value has a variable among its words (Lean lammps_no_var_remains_partial)",
     ]
     return ("templates: all mdp/LAMMPS templates of ≤ 3 (thorough: 4) lines over a 7/6-line alphabet × final newline "
             "present/absent × 5 settings dicts, then seeded random templates of ≤ 9 lines from a grammar with comments, "
             "duplicate keys, prefix keys, several '=' per line, variables on several lines / twice on a line / inside "
-            "longer tokens, plus the repo's own .mdp and lammps.input files; non-trivial = a requested key/variable "
-            "occurs in the template; distinct by (template, settings)")
+            "longer tokens, values with white space / with variable names as words and inside longer words / with "
+            "regex-special characters, every str.isspace character and 12 look-alikes as separator (exhaustive), random "
+            "word/separator lines over ASCII and non-ASCII white space, plus the repo's own .mdp and lammps.input files; "
+            "non-trivial = a requested key/variable occurs in the template; distinct by (template, settings)")
 
 
 def replay_part(ctx, obj):
